@@ -8,7 +8,8 @@ ASSUME = [
     "all runs of a group share one FFT wisdom directory that was warmed up by a discarded run (same wisdom => same plans); nothing is claimed across different wisdom files",
     "/Particles is compared only between runs with the same tracking file and a deterministic tracking model (FPTrack 0-2): the stochastic model seeds itself from random_device",
     "RF noise off (the property excludes noise); deterministic phase modulation is used in a fifth of the groups, incl. /RFKicks in the comparison",
-    "records are matched by step number (time * steps per period, rounded)",
+    "records are matched by step number (time * steps per period, rounded); all runs of a group must end at the same step",
+    "one group in eight is a diverging configuration (Fokker-Planck step beyond the explicit scheme's stable range: NaN/inf after a few dozen steps); NaN records are compared bit for bit like any others",
 ]
 
 
@@ -37,6 +38,13 @@ def gen_group(seed, g, tier):
         o["InterpolationPoints"] = r.choice([2, 3])
     if r.chance(0.3):
         o["DampingTime"] = r.choice([0.0, 2e-3])
+    unstable = (g % 8 == 5)
+    if unstable:
+        # a configuration that diverges (explicit Fokker-Planck step beyond its stable range, NaN/inf within a few dozen steps): how far
+        # such a run gets, and what it leaves behind, is as independent of the observation as for any healthy run
+        P0 = physics.derive(o)
+        o["DampingTime"] = float("%.4g" % (2.0 / (P0["fs"] * P0["steps"] * r.uniform(0.7, 1.5) * P0["delta"] ** 2)))
+        o["_unstable"] = True
     last = prog.laststep(o["StepsPerTs"], o["rotations"])
     variants = [dict(outstep=1, SavePhaseSpace=1)]          # reference: every step, every phase space
     variants.append(dict(outstep=1, SavePhaseSpace=1))     # identical repetition
@@ -46,7 +54,7 @@ def gen_group(seed, g, tier):
         v = dict(outstep=r.choice([2, 5, 13, 0, last + 3, 7, 1]), SavePhaseSpace=r.choice([0, 1, 2, 3]))
         if r.chance(0.4):
             v["verbose"] = True
-        if r.chance(0.5):
+        if r.chance(0.5) and not unstable:
             v["_tracking"] = r.choice([5, 500])
             v["FPTrack"] = r.choice([0, 1, 2, 3])
         if r.chance(0.3):
@@ -61,6 +69,7 @@ def run_group(args):
     gd = os.path.join(sdir, "g%04d" % g)
     xdg = os.path.join(gd, "xdg")
     os.makedirs(xdg, exist_ok=True)
+    unstable = bool(base.pop("_unstable", False))
     P = physics.derive(base)
     if P["nbuckets"] > 1 and (P["spacing_bins"] < P["n"] or P["wake_N"] > 70000):
         return dict(g=g, skip=True)
@@ -99,6 +108,18 @@ def run_group(args):
             files.append(None)
         out["runs"] += 1
     ref = files[0]
+    out["unstable"] = unstable
+    if ref is not None:
+        # every run of the group simulates the same number of steps: its last record carries the same time stamp
+        def last_step(h):
+            t = h["/Info/AxisValues_t"].astype("float64")
+            return int(round(float(t[-1]) * P["steps"])) if len(t) else -1
+        want_last = last_step(ref[0])
+        for vi in range(1, len(files)):
+            if files[vi] is not None and last_step(files[vi][0]) != want_last:
+                out["viol"].append(("C12:steps_simulated", "runs that differ only in how they are observed end at different steps",
+                                    dict(base=base, variant=files[vi][1], last_step=last_step(files[vi][0]), reference_last_step=want_last, cmd=files[vi][2], reference_cmd=ref[2])))
+        out["final_steps_compared"] = sum(1 for f in files[1:] if f is not None)
     if ref is None:
         out["incon"].append("group %d: reference run failed" % g)
     else:
@@ -163,9 +184,12 @@ def run(ctx):
         ctx.case(res["sig"])
         ctx.ev("runs", res["runs"])
         ctx.ev("records_compared_bitwise", res["compared"])
+        ctx.ev("final_steps_compared", res.get("final_steps_compared", 0))
+        if res.get("unstable"):
+            ctx.ev("groups_of_diverging_runs")
         for key, what, w in res["viol"]:
             ctx.violation(key, what, w)
         for i in res["incon"]:
             ctx.inconcl(i)
         ctx.sample(dict(base=res["base"], runs=res["runs"], records_compared=res["compared"]))
-    ctx.min_events = {"runs": 4 * n, "records_compared_bitwise": 100 * n}
+    ctx.min_events = {"runs": 4 * n, "records_compared_bitwise": 100 * n, "final_steps_compared": 3 * n, "groups_of_diverging_runs": 1}
